@@ -1,4 +1,4 @@
-import Pycoin.Proofs.ChainFull
+import Pycoin.Proofs.ChainNoErr
 import Pycoin.Proofs.ChainSpec
 import Pycoin.Model.ChainFinderOld
 import Pycoin.Spec.Chain
@@ -10,8 +10,9 @@ order is a parameter, so each statement holds for every order CPython may choose
 
 Hypotheses that remain, both explicit: `Step.avoids anchor0` (no delivered header carries the anchor's own hash:
 the anchor is outside the forest) and `runHist … = .ok …` (the model run returns; an `.error` is a Python exception
-or a walk that never ends, which needs a cycle in the parent relation — see `C15_walk_fuel_suffices` for the part of
-"never raises" that is proved).  Nothing is assumed about the finder any more: `C15_chainfinder_inv` proves its
+or a walk that never ends).  `C15_never_raises` discharges the second one for well-formed histories: headers whose
+parent relation is acyclic — the explicit hypothesis `Step.wf f`, a rank `f` that drops along every parent link, which
+is what the hash property gives — and `lock_to_index(i)` called with `i ≤ length()`.  Nothing is assumed about the finder any more: `C15_chainfinder_inv` proves its
 invariant for every forest, batching and pop order, and `lockToIndex_full` that the finder rebuilt by
 `lock_to_index` still holds the unlocked remainder of the reported chain.
 -/
@@ -68,6 +69,47 @@ theorem C15_index_maps_agree (anchor0 : Nat) (rev : Bool) (steps : List Step) (o
       obtain ⟨t, ht, e⟩ := tupleForIndex_good rev g _ hi
       simp only [BC.hashForIndex, ht, bind, Except.bind, e]
       rw [List.getLast?_eq_getElem?, List.getElem?_eq_getElem hi]; rfl
+
+/-! ## the model never raises on well-formed histories -/
+
+/-- **C15_never_raises**.  For every history whose delivered headers do not carry the anchor's hash and rank above
+their parents for some rank function `f` (acyclicity, the named hypothesis), and whose `lock_to_index(i)` calls satisfy
+`i ≤ length()`, every call returns: no `KeyError`/`IndexError`, every upward walk (`meld_new_hashes`, `maximum_path`)
+ends within the fuel `len(parent_lookup) + 1`, whatever the pop order. -/
+theorem C15_never_raises (f : Nat → Nat) (anchor0 : Nat) (rev : Bool) (steps : List Step)
+    (hwf : ∀ s ∈ steps, s.wf f anchor0) (hlk : LocksWithin rev (BC.new anchor0) steps) :
+    ∃ obs bc', runHist rev (BC.new anchor0) steps = .ok (obs, bc') := by
+  obtain ⟨⟨obs, bc'⟩, h⟩ := run_ok f anchor0 rev steps (BC.new anchor0) [] (Full.init anchor0)
+    (by intro k v hk; simp [BC.new, CF.empty, dget] at hk) hwf hlk
+  exact ⟨obs, bc', h⟩
+
+theorem Step.wf.avoids {f : Nat → Nat} {anchor0 : Nat} {s : Step} (h : s.wf f anchor0) : s.avoids anchor0 := by
+  cases s with
+  | add batch rank => exact fun hd hm => (h hd hm).1
+  | lock index rank => trivial
+
+/-- **C15_wellformed_history**: everything together, with no hypothesis about the run.  For a well-formed history the
+calls return, the returned ops replay to the reported chain, the lookups agree with it, and its unlocked part is a
+heaviest chain of registered headers above the current anchor. -/
+theorem C15_wellformed_history (f : Nat → Nat) (anchor0 : Nat) (rev : Bool) (steps : List Step)
+    (hwf : ∀ s ∈ steps, s.wf f anchor0) (hlk : LocksWithin rev (BC.new anchor0) steps) :
+    ∃ obs bc' L c, runHist rev (BC.new anchor0) steps = .ok (obs, bc') ∧
+      replay (allOps obs) [] = some L ∧ L = lockedHashes bc' ++ c.reverse ∧ L.Nodup ∧
+      bc'.length rev = .ok L.length ∧
+      (∀ i (hi : i < L.length), bc'.hashForIndex rev i = .ok L[i]) ∧
+      (∀ h i, bc'.indexForHash h = some i ↔ ∃ n : Nat, i = (n : Int) ∧ L[n]? = some h) ∧
+      UpPath bc'.finder.parent (c ++ [bc'.parentHash]) ∧
+      ∀ c'' : List Nat, UpPath bc'.finder.parent (c'' ++ [bc'.parentHash]) →
+        chainWeight bc'.weight c'' ≤ chainWeight bc'.weight c := by
+  obtain ⟨obs, bc', hr⟩ := C15_never_raises f anchor0 rev steps hwf hlk
+  have hav : ∀ s ∈ steps, s.avoids anchor0 := fun s hs => (hwf s hs).avoids
+  obtain ⟨c', fl, r⟩ := run_full anchor0 rev steps (BC.new anchor0) bc' [] obs (Full.init anchor0) hav hr
+  have g := fl.good
+  refine ⟨obs, bc', lockedHashes bc' ++ c'.reverse, c', hr, by simpa [lockedHashes, BC.new] using r, rfl, g.nodup,
+    length_good rev g, ?_, g.exact, g.path, fl.heaviest⟩
+  intro i hi
+  obtain ⟨t, ht, e⟩ := tupleForIndex_good rev g i hi
+  simp [BC.hashForIndex, ht, bind, Except.bind, e]
 
 /-! ## maximum weight -/
 
@@ -200,5 +242,12 @@ theorem C15_chainfinder_inv_witness :
 #guard (match runHist false (BC.new 0) [.add [⟨30, 20, 5⟩] [], .add [⟨20, 0, 1⟩, ⟨10, 20, 1⟩] [10, 20]] with
   | .ok (obs, _) => replay (allOps obs) [] == some [20, 30]
   | .error _ => false)
+
+/-- the hypotheses of `C15_never_raises` are satisfiable: the three-header history with `f = id`-like ranks -/
+example : ∀ s ∈ [Step.add [⟨30, 20, 5⟩] [], Step.add [⟨20, 0, 1⟩, ⟨10, 20, 1⟩] [10, 20]],
+    s.wf (fun x => if x = 0 then 0 else if x = 20 then 1 else 2) 0 := by
+  intro s hs
+  simp at hs
+  rcases hs with rfl | rfl <;> simp [Step.wf]
 
 end Pycoin.Chain
